@@ -40,6 +40,12 @@ func checkC04(v *tunView, m *connModel) {
 			if x.F.Channel != ep.Channel {
 				continue // foreign channel: nothing
 			}
+			if c.TCP {
+				// no sequence numbers, no acknowledgements: every request on the channel is delivered
+				accepted[id]++
+				acceptOrder = append(acceptOrder, id)
+				continue
+			}
 			exp := expected[mode]
 			switch x.F.Seq {
 			case exp:
